@@ -1960,7 +1960,7 @@ def run(ctx):
         "histogram": {k: v for k, v in stats.items() if k != "search_rng"},
         "pending": ["K3b fragment lacks non-self calls / memory statements as non-tail statements; single-assignment "
                     "well-formedness behind the iteration-state abstraction is assumed, not proved (plan: exec_agree over `closed`)",
-                    "K4c: mixed constant + unused parameters in one sweep; Int31/string constants",
+                    "K4c: Int31/string constants; eliminations in several functions at once composed only by the driver",
                     "match lowering is covered by C03 (MatchLower), not here"]})
     if stats["no_node"]:
         ctx.assumptions.append("Node >= 22 missing: end-to-end leg skipped, coverage reduced to the stage protocols")
